@@ -64,21 +64,12 @@ theorem http_accepted_within_max {s : HttpSig} {o : HttpObs} {d : Nat}
 
 /-! ## 2. TCP: the distance is the specified one -/
 
-/-- Full statement: wherever the specification determines the outcome (instance → 0, decisive
-mismatch → rejected, comparable differences → the sum of their fixed penalties) the code agrees. -/
-def FullTcpSpec : Prop := ∀ s o r, specTcp s o = some r → tcpDistance s o = r
-
-/-- The three window classes in which the current code departs from the specification. -/
-def TcpKF (s : TcpSig) (o : TcpObs) : Prop :=
-  KF.C12.modDivides o.wsize s.wsize ∨ KF.C12.valueVsMod o.wsize s.wsize ∨
-  KF.C12.windowMssFloor o.wsize s.wsize o.mss
-
-instance (s o) : Decidable (TcpKF s o) := by unfold TcpKF; exact inferInstance
-
-theorem tcp_spec_partial (s : TcpSig) (o : TcpObs) (r : Option Nat) (hk : ¬ TcpKF s o)
-    (h : specTcp s o = some r) : tcpDistance s o = r :=
-  tcpDistance_eq_spec s o r (fun e => hk (.inl e)) (fun e => hk (.inr (.inl e)))
-    (fun e => hk (.inr (.inr e))) h
+/-- **TCP distance = specification.** Wherever the specification determines the outcome
+(instance → 0, decisive mismatch → rejected, comparable differences → the sum of their fixed
+penalties) the code agrees — full strength since the window repairs (`fixes/C12-2…4`). -/
+theorem tcp_spec (s : TcpSig) (o : TcpObs) (r : Option Nat) (h : specTcp s o = some r) :
+    tcpDistance s o = r :=
+  tcpDistance_eq_spec s o r h
 
 def sigLinux : TcpSig :=
   { version := .any, ittl := .value 64, olen := 0, mss := none, wsize := .mss 20, wscale := some 7,
@@ -89,44 +80,33 @@ def obsLinux : TcpObs :=
     pclass := .zero }
 
 -- non-vacuity: an instance (raw window = 20 × MSS, TTL 57+7), a two-field difference, a rejection
-example : ¬ TcpKF sigLinux obsLinux ∧ specTcp sigLinux obsLinux = some (some 0) := by decide
+example : specTcp sigLinux obsLinux = some (some 0) := by decide
 example : specTcp sigLinux { obsLinux with ittl := .value 63, wscale := some 8 } = some (some 3) ∧
     tcpDistance sigLinux { obsLinux with ittl := .value 63, wscale := some 8 } = some 3 := by decide
 example : specTcp sigLinux { obsLinux with quirks := [.df] } = some none := by decide
 
-/-- `%4096` observed, `%1024` in the signature: an instance, costs 2. -/
-theorem kf_modDivides_witness : ¬ FullTcpSpec := fun h =>
-  absurd (h { sigLinux with wsize := .mod 1024 } { obsLinux with wsize := .mod 4096 } (some 0) (by decide))
-    (by decide)
-example : KF.C12.modDivides (.mod 4096) (.mod 1024) := by decide
-
-/-- raw window 8192 observed, `%1024` in the signature: an instance, rejected. -/
-theorem kf_valueVsMod_witness : ¬ FullTcpSpec := fun h =>
-  absurd (h { sigLinux with wsize := .mod 1024 } { obsLinux with wsize := .value 8192 } (some 0) (by decide))
-    (by decide)
-example : KF.C12.valueVsMod (.value 8192) (.mod 1024) := by decide
-
-/-- raw window 2921 with MSS 1460 against `mss*2`: not a multiple, yet distance 0. -/
-theorem kf_windowMssFloor_witness : ¬ FullTcpSpec := fun h =>
-  absurd (h { sigLinux with wsize := .mss 2 } { obsLinux with wsize := .value 2921 } (some 2) (by decide))
-    (by decide)
-example : KF.C12.windowMssFloor (.value 2921) (.mss 2) (some 1460) := by decide
+-- the three repaired window classes (former KF.C12.modDivides / valueVsMod / windowMssFloor), kept
+-- as regression examples: `%4096` and a raw 8192 instantiate `%1024`; 2921 is not 2 × 1460
+example : tcpDistance { sigLinux with wsize := .mod 1024 } { obsLinux with wsize := .mod 4096 } = some 0 := by
+  decide
+example : tcpDistance { sigLinux with wsize := .mod 1024 } { obsLinux with wsize := .value 8192 } = some 0 := by
+  decide
+example : tcpDistance { sigLinux with wsize := .mss 2 } { obsLinux with wsize := .value 2921 } = some 2 ∧
+    specTcp { sigLinux with wsize := .mss 2 } { obsLinux with wsize := .value 2921 } = some (some 2) := by
+  decide
+example : specTcp { sigLinux with wsize := .mod 1024 } { obsLinux with wsize := .value 8193 } = some (some 2) := by
+  decide
 
 /-- **Instance law.** An observation instantiating the signature — wildcards filled with any
 concrete values, TTL `t+d` with `t + d` the signature's TTL and `d ≤ 30` hops — is accepted
 with distance 0 and quality 1.0. -/
-def FullTcpInstance : Prop :=
-  ∀ s o, TtlWF o.ittl → TtlWF s.ittl → o.version ≠ .any → TcpInst o s →
-    tcpDistance s o = some 0 ∧ tcpScore 0 = 100
-
-theorem tcp_instance_partial (s : TcpSig) (o : TcpObs) (ho : TtlWF o.ittl) (hs : TtlWF s.ittl)
-    (hv : o.version ≠ .any) (hk1 : ¬ KF.C12.modDivides o.wsize s.wsize)
-    (hk2 : ¬ KF.C12.valueVsMod o.wsize s.wsize) (h : TcpInst o s) :
+theorem tcp_instance (s : TcpSig) (o : TcpObs) (ho : TtlWF o.ittl) (hs : TtlWF s.ittl)
+    (hv : o.version ≠ .any) (h : TcpInst o s) :
     tcpDistance s o = some 0 ∧ tcpScore 0 = 100 := by
   obtain ⟨⟨hver, hl, hq, hp⟩, ht, hol, hm, hw, hws⟩ := h
   refine ⟨?_, (tcp_score_one_iff 0).mpr rfl⟩
   rw [tcpDistance_of_parts (distIpVersion_ok hver hv) (distTtl_inst _ _ ho hs ht)
-    (distOlen_eq o s) (distMss_eq o s) (distWindow_inst _ _ _ hk1 hk2 hw) (distWscale_eq o s)
+    (distOlen_eq o s) (distMss_eq o s) (distWindow_inst _ _ _ hw) (distWscale_eq o s)
     (by simp [distOlayout, hl, tcpHigh_eq] : distOlayout o s = some 0)
     (by simp [distQuirks, hq, tcpHigh_eq] : distQuirks o s = some 0) (distPayload_ok hp)]
   simp [hol, hm, hws, satAdd32]
@@ -140,10 +120,6 @@ theorem ttl_instance_all_hops (T d : Nat) (hT : T ≤ 255) (hd : d ≤ 30) (hdT 
     distTtl (.guess T) (.value T) = some 0 := by
   refine ⟨distTtl_inst _ _ ?_ ?_ ?_, distTtl_inst _ _ ?_ ?_ ?_, distTtl_inst _ _ ?_ ?_ ?_⟩ <;>
     simp only [TtlWF, TtlInst, maxHops] <;> omega
-
-theorem kf_instance_witness : ¬ FullTcpInstance := fun h =>
-  absurd (h { sigLinux with wsize := .mod 1024 } { obsLinux with wsize := .mod 4096 }
-    (by decide) (by decide) (by decide) (by decide)).1 (by decide)
 
 /-- **Decisive fields.** A mismatch in IP version, option layout, quirks or payload class is
 never accepted, whatever the other fields are. (Full strength.) -/
@@ -207,16 +183,15 @@ theorem ttl_single_field (s : TcpSig) (o : TcpObs) (t : Ttl) (d : Nat)
 example : tcpDistance sigLinux obsLinux = some 0 ∧
     tcpDistance sigLinux { obsLinux with ittl := .distance 56 7 } = some (0 + penTtl) := by decide
 
-/-- Window: the same law for the window field (outside the three window classes). -/
+/-- Window: the same law for the window field. -/
 theorem window_single_field (s : TcpSig) (o : TcpObs) (w : WindowSize) (d : Nat)
-    (hk1 : ¬ KF.C12.modDivides o.wsize s.wsize) (hk2 : ¬ KF.C12.valueVsMod o.wsize s.wsize)
     (hi : WinInst o.wsize s.wsize o.mss) (hd : tcpDistance s o = some d) :
     (∀ d', tcpDistance s { o with wsize := w } = some d' → d ≤ d') ∧
-    (¬ KF.C12.windowMssFloor w s.wsize o.mss → ¬ WinInst w s.wsize o.mss → WinComparable w s.wsize →
+    (¬ WinInst w s.wsize o.mss → WinComparable w s.wsize →
       tcpDistance s { o with wsize := w } = some (d + penWindow)) := by
   obtain ⟨d0, d1, d2, d3, d4, d5, d6, d7, d8, h0, h1, h2, h3, h4, h5, h6, h7, h8, rfl⟩ :=
     tcpDistance_some hd
-  rw [distWindow_inst _ _ _ hk1 hk2 hi] at h4
+  rw [distWindow_inst _ _ _ hi] at h4
   cases h4
   constructor
   · intro d' hd'
@@ -232,9 +207,9 @@ theorem window_single_field (s : TcpSig) (o : TcpObs) (w : WindowSize) (d : Nat)
     have : e8 = d8 := Option.some.inj (g8.symm.trans h8)
     subst_vars
     simp only [satAdd32, u32Max]; omega
-  · intro hk3 hni hc
+  · intro hni hc
     have g4 : distWindow ({ o with wsize := w } : TcpObs).wsize s.wsize o.mss = some tcpLow :=
-      distWindow_differ w s.wsize o.mss hk3 hni hc
+      distWindow_differ w s.wsize o.mss hni hc
     rw [tcpDistance_of_parts (o := { o with wsize := w }) h0 h1 h2 h3 g4 h5 h6 h7 h8]
     have := distIpVersion_le h0; have := distTtl_le h1; have := distOlen_le h2
     have := distMss_le h3; have := distWscale_le h5; have := distOlayout_le h6
@@ -313,7 +288,6 @@ def FullHttpSpec : Prop := ∀ s o r, specHttp s o = some r → httpDistance s o
 
 def HttpKF (s : HttpSig) (o : HttpObs) : Prop :=
   (KF.C12.headerRepeatedName s.horder ∨ KF.C12.headerRepeatedName s.habsent) ∨
-  (KF.C12.headerValueWildcard o.horder s.horder ∨ KF.C12.headerValueWildcard o.habsent s.habsent) ∨
   KF.C12.expswReversed o.expsw s.expsw
 
 instance (s o) : Decidable (HttpKF s o) := by unfold HttpKF; exact inferInstance
@@ -322,8 +296,7 @@ instance (s o) : Decidable (HttpKF s o) := by unfold HttpKF; exact inferInstance
 software-string penalty iff the observed string does not contain the token. -/
 theorem http_spec_partial (s : HttpSig) (o : HttpObs) (r : Option Nat) (hk : ¬ HttpKF s o)
     (h : specHttp s o = some r) : httpDistance s o = r :=
-  httpDistance_eq_spec s o r (fun e => hk (.inl e)) (fun e => hk (.inr (.inl e)))
-    (fun e => hk (.inr (.inr e))) h
+  httpDistance_eq_spec s o r (fun e => hk (.inl e)) (fun e => hk (.inr e)) h
 
 def sigFx : HttpSig :=
   { version := .any,
@@ -367,10 +340,9 @@ def obsWild : HttpObs :=
     horder := [⟨false, "A", some "x"⟩, ⟨false, "B", some "x"⟩, ⟨false, "C", some "x"⟩],
     habsent := [], expsw := "" }
 
-/-- `A,B,C` (no values demanded) against `A=[x],B=[x],C=[x]`: an instance, three errors. -/
-theorem kf_headerValueWildcard_witness : ¬ FullHttpSpec := fun h =>
-  absurd (h sigWild obsWild (some 0) (by decide)) (by decide)
-example : KF.C12.headerValueWildcard obsWild.horder sigWild.horder := by decide
+-- the repaired value-wildcard class (former KF.C12.headerValueWildcard): `A,B,C` (no values
+-- demanded) against `A=[x],B=[x],C=[x]` is an instance at distance 0
+example : HttpInst obsWild sigWild ∧ httpDistance sigWild obsWild = some 0 := by decide
 
 /-- **Instance law (HTTP).** -/
 def FullHttpInstance : Prop :=
@@ -380,9 +352,9 @@ theorem http_instance_partial (s : HttpSig) (o : HttpObs) (hk : ¬ HttpKF s o) (
     httpDistance s o = some 0 ∧ httpScore 0 = 100 := by
   obtain ⟨hv, hh, ha, hs⟩ := h
   refine ⟨?_, (http_score_one_iff 0).mpr rfl⟩
-  have h1 := distHeader_inst hh (fun e => hk (.inl (.inl e))) (fun e => hk (.inr (.inl (.inl e))))
-  have h2 := distHeader_inst ha (fun e => hk (.inl (.inr e))) (fun e => hk (.inr (.inl (.inr e))))
-  have h3 := distExpsw_eq o.expsw s.expsw (fun e => hk (.inr (.inr e)))
+  have h1 := distHeader_inst hh (fun e => hk (.inl (.inl e)))
+  have h2 := distHeader_inst ha (fun e => hk (.inl (.inr e)))
+  have h3 := distExpsw_eq o.expsw s.expsw (fun e => hk (.inr e))
   rw [if_pos hs] at h3
   simp [httpDistance, distHttpVersion_ok hv, h1, h2, h3, satAdd32]
 
@@ -405,11 +377,11 @@ theorem expsw_exact_penalty (o s : String) (hk : ¬ KF.C12.expswReversed o s) :
 /-- Header lists: `k` unknown extra headers after an instance cost exactly `k` errors, i.e. the
 band of `k`; and the band is monotone in the number of errors (`errorBand_mono`). -/
 theorem header_extra_exact {os ss : List Header} (ex : List Header) (h : HdrInst os ss)
-    (hnd : ¬ KF.C12.headerRepeatedName ss) (hw : ¬ KF.C12.headerValueWildcard os ss)
+    (hnd : ¬ KF.C12.headerRepeatedName ss)
     (hex : ∀ e ∈ ex, e.name ∉ ss.map (·.name)) (hlen : ex.length ≤ u32Max) :
     distHeader (os ++ ex) ss = errorBand ex.length := by
   unfold distHeader
-  rw [hdrErrors_inst_extra h ex (Classical.not_not.mp hnd) hw hex, Nat.min_eq_left hlen]
+  rw [hdrErrors_inst_extra h ex (Classical.not_not.mp hnd) hex, Nat.min_eq_left hlen]
 
 /-- The walk is *greedy*: one unknown header in front of the observed list consumes the whole
 signature list — every required header becomes an error and so does every observed header —
